@@ -33,7 +33,7 @@ RULE = ("traced cases: as C09 with more throws / interrupts / cancels, 2..4 Pyth
         "the case JSON")
 
 C15_KINDS = ("task_throw", "task_interrupt", "interrupt ", "refused interrupt", "superseded interrupt",
-             "unknown interrupt", "workers did not finish", "loop exception handler called")
+             "unknown interrupt", "workers did not finish", "loop exception handler called", "event loop crashed")
 EXPECTED = ("accepted throw: target has exactly one handle step(exc), no wake-up registered, _fut_waiter None, "
             "awaited object and other waiters untouched; exc raised in the target exactly once unless "
             "superseded; refused throw changes nothing; task_interrupt: target runs next and the caller "
